@@ -99,6 +99,7 @@ class Interp:
         self.paths = 0
         self.depth = 0
         self.for_value = FREE     # what a `for` pattern / the parameter of an `all`/`any` closure is bound to
+        self.max_paths = MAX_PATHS
         self.field_vars = set()   # field names tracked like variables (`self.a.flag` -> "$f:flag"), whatever their base
 
     # ------------------------------------------------------------------ entry
@@ -135,7 +136,7 @@ class Interp:
 
     def _count(self, n=1):
         self.paths += n
-        if self.paths > MAX_PATHS:
+        if self.paths > self.max_paths:
             raise TooManyPaths()
 
     # ------------------------------------------------------------------ patterns
@@ -469,6 +470,21 @@ class Interp:
         if c.get("k") == "unary" and c["op"] == "!":
             r, esc = self.cond(c["e"], st)
             return [(not b, s) for b, s in r], esc
+        if c.get("k") == "binary" and c["op"] in ("==", "!="):
+            # `x == "lit"` on an unknown variable: both outcomes, the variable becomes the literal where they are equal
+            for a, b in ((c["l"], c["r"]), (c["r"], c["l"])):
+                a1, b1 = sir.strip_ref(a), sir.strip_ref(b)
+                while a1.get("k") == "unary" and a1["op"] == "*":
+                    a1 = sir.strip_ref(a1["e"])
+                if a1.get("k") == "path" and len(a1["segs"]) == 1 and is_unknown(st.env.get(a1["segs"][0], 0)) and b1.get("k") == "lit" and b1.get("t") in ("str", "char"):
+                    self._count(1)
+                    tainted = st.env[a1["segs"][0]] == UNK
+                    s_eq = st.set(a1["segs"][0], b1["v"])
+                    s_ne = st
+                    if tainted:
+                        s_eq, s_ne = s_eq.taint(), s_ne.taint()
+                    eq = c["op"] == "=="
+                    return [(eq, s_eq), (not eq, s_ne)], esc
         rf = self._refinable(c)
         for o in self.ev(c, st):
             if o.kind != "val":
@@ -643,6 +659,11 @@ class Interp:
                 base = St(env, o.st.events, o.st.tainted or (r == "maybe" and v == UNK), o.st.approx)
                 if r == "maybe":
                     self._count(1)
+                    sv = sir.strip_ref(e["e"])
+                    while sv.get("k") == "unary" and sv["op"] == "*":
+                        sv = sir.strip_ref(sv["e"])
+                    if sv.get("k") == "path" and len(sv["segs"]) == 1 and a["pat"].get("k") == "p_lit" and a["pat"]["e"].get("t") in ("str", "char"):
+                        base = base.set(sv["segs"][0], a["pat"]["e"]["v"])
                 if a.get("guard") is not None:
                     gs, esc = self.cond(a["guard"], base)
                     res += esc
